@@ -8,6 +8,10 @@ module VC2TablesF.tla and which replaces the placeholder spec/VC2TablesF.tla in 
 G: every completed choice of the TLC machine (-dump; -simulate walks with up to 8 deviating groups) is turned
 into a CodecFeatures; iter_sequence_headers() yields all alternative headers; each is serialised as
 [sequence_header, end_of_sequence] and fed to the real validator (parse_stream).
+Each recorded header is serialised twice: in isolation (a deep copy) and IN ORDER -- the very objects the generator
+yielded, one after the other in generation order, without copies (autofill writes major_version into the header's
+parse-parameters object): bytes that differ from the isolated ones go through the validator again; the heap is
+projected as `cell` (which headers share a parse-parameters object) and modelled by SeqHeaderOps!SerialiseInOrder.
 T: one recorded event per configuration (requested parameters, and per header: the abstract encoding read from
 the emitted dictionary, verdict, decoded parameters, coding mode, major_version); SeqHeaderTrace.tla judges it.
 """
@@ -463,7 +467,7 @@ def judge(ctx, events, tables, nchunks, report=True):
             what = "decoded picture coding mode %r, requested %r" % (h["dpcm"], ev["pcm"])
         sig = "C15|%s|%s" % (b["clause"] + ("InOrder" if inorder else ""), detail)
         if inorder:
-            what = "serialised as yielded, after the %d header(s) generated before it (no copies; parse-parameters cell %d, major_version %d): %s" % (h["n"], ev["hs"][b["h"] - 1]["cell"], h["ver"], what)
+            what = "serialised as yielded, as header %d of its configuration after the recorded ones before it (no copies; parse-parameters cell %d, major_version %d): %s" % (h["n"], ev["hs"][b["h"] - 1]["cell"], h["ver"], what)
         if b["clause"] == "RejectedLevelVersion":
             sig += "|level%d" % ev["level"]
         alarms.append((sig, what, {"cfg": {"vp": ev["req"], "pcm": ev["pcm"], "level": ev["level"], "ft": ev["ft"]}, "header": b["h"]}))
@@ -579,6 +583,13 @@ def run(ctx):
     dev = None if ctx.quick else tlc.run("SeqHeaderFormats", read_cfg("SeqHeaderFormats.cfg", MaxPerturb=0) + "INVARIANT NoLevelVersionDeviation\n", coverage=False, extra_files=[tables], allow_invariant_violation=True, timeout=600)
     if dev is not None:
         ctx.add_tlc(dev, "deviation reachability (MaxPerturb=0, invariant NoLevelVersionDeviation expected to fail on the real table)", {"MaxPerturb": 0})
+    # likewise the aliasing deviation: the model must contain configurations whose headers, serialised in order out of
+    # ONE shared parse-parameters cell, would not all carry their own minimal version
+    haz = None if ctx.quick else tlc.run("SeqHeaderFormats", read_cfg("SeqHeaderFormats.cfg", MaxPerturb=0) + "INVARIANT NoAliasingHazard\n", coverage=False, extra_files=[tables], allow_invariant_violation=True, timeout=600)
+    if haz is not None:
+        ctx.add_tlc(haz, "aliasing hazard reachability (MaxPerturb=0, invariant NoAliasingHazard expected to fail)", {"MaxPerturb": 0})
+        if haz.invariant_violated != "NoAliasingHazard":
+            raise RuntimeError("vacuous: the model has no configuration whose headers need different versions (NoAliasingHazard holds)")
     rnd = random.Random(ctx.seed)
     singles = [c for c in cfgs if sum(1 for k, v in c["f"].items() if k not in ("base", "pcm") and v) <= 1]
     doubles = [c for c in cfgs if c not in singles] if mp > 1 else []
@@ -619,17 +630,18 @@ def run(ctx):
         raise RuntimeError("vacuous: no header was generated and accepted")
     empty = sum(1 for e in events if not e["hs"])
     genexc = sorted(set(e["gen_exc"] for e in events if e["gen_exc"]))
-    # configurations whose recorded alternative headers carry different minimal versions: only there does the order
-    # of serialisation (aliased parse parameters) matter
-    hazard = [c for c, e in zip(todo, events) if len(set(h["ver"] for h in e["hs"] if h["ok"])) > 1]
+    # configurations one of whose recorded alternative headers needs a HIGHER version than the first one generated:
+    # only there can a version left behind by an earlier serialisation (aliased parse parameters) get a header
+    # rejected (a version that is too high is only noticed at the end of the sequence, which is not part of C15)
+    hazard = [c for c, e in zip(todo, events) if e["hs"] and e["hs"][0]["ok"] and any(h["ok"] and h["ver"] > e["hs"][0]["ver"] for h in e["hs"])]
     if not hazard:
-        raise RuntimeError("vacuous: no configuration whose alternative headers need different major versions")
+        raise RuntimeError("vacuous: no configuration with an alternative header needing a higher major version than the first")
     try:
         st = selftest_binding(cfgs, tables, hazard)
     except RuntimeError as ex:
         # on a tree that already falsifies the property the in-process mutants sit on top of a defective encoder;
         # the fresh violations of this run are then the evidence that the pipeline flags a broken encoder
-        if not alarms:
+        if not any("|RejectedLevelVersion|" not in sig for sig, _, _ in alarms):
             raise
         st = {"not_completed": str(ex), "note": "this run reports violations (the binding flags this tree); the in-process mutants were applied on top of it"}
     phase("selftest")
@@ -649,7 +661,7 @@ def run(ctx):
             "in_order_pass": {
                 "headers_serialised_as_yielded_in_generation_order": nh,
                 "bytes_differ_from_isolated": sum(1 for e in events for h in e["hs"] if not h["same"]),
-                "configurations_whose_headers_need_different_versions": len(hazard),
+                "configurations_with_a_later_header_needing_a_higher_version_than_the_first": len(hazard),
                 "aliased_parse_parameter_cells": sum(1 for e in events for j, h in enumerate(e["hs"]) if h["cell"] != j + 1),
             },
             "cpu_seconds_by_phase": phases,
@@ -663,6 +675,7 @@ def run(ctx):
             "spec_disagreements": sum(dis.values()),
             "spec_disagreements_by_clause": dis,
             "model_deviation_reachable": (dev.invariant_violated == "NoLevelVersionDeviation") if dev is not None else "not run in the quick tier",
+            "model_aliasing_hazard_reachable": (haz.invariant_violated == "NoAliasingHazard") if haz is not None else "not run in the quick tier (measured instead: in_order_pass.configurations_with_a_later_header_needing_a_higher_version_than_the_first)",
             "binding_selftest": st,
             "samples": [
                 {"requested": events[i]["req"], "pcm": events[i]["pcm"], "level": events[i]["level"], "headers": len(events[i]["hs"]), "first_header": events[i]["hs"][0] if events[i]["hs"] else None}
